@@ -9,7 +9,7 @@
 Only the Python standard library is used.  Everything is rebuilt from /repo's current
 working tree (content-hash build cache under /verif/build).
 """
-import sys, os, json, hashlib, subprocess, shutil, time, fcntl, glob, re, struct, tempfile
+import threading, sys, os, json, hashlib, subprocess, shutil, time, fcntl, glob, re, struct, tempfile
 from concurrent.futures import ThreadPoolExecutor
 
 VERIF = os.path.dirname(os.path.abspath(__file__))
@@ -116,16 +116,18 @@ def shim_dir():
     d = os.path.join(BUILD, "shim-" + key)
     dst = os.path.join(d, "nstd", "Base.hpp")
     if not os.path.exists(dst):
-        os.makedirs(os.path.dirname(dst), exist_ok=True)
-        out = ["#pragma once", "#include <new>"]
-        for l in lines:
-            if re.search(r"operator\s+(new|delete)", l):
-                continue
-            out.append(l)
-        tmp = dst + ".tmp%d" % os.getpid()
-        with open(tmp, "w") as f:
-            f.write("\n".join(out))
-        os.rename(tmp, dst)
+        with Lock("shim-" + key):   # several parts of a property are built by concurrent threads (and processes)
+            if not os.path.exists(dst):
+                os.makedirs(os.path.dirname(dst), exist_ok=True)
+                out = ["#pragma once", "#include <new>"]
+                for l in lines:
+                    if re.search(r"operator\s+(new|delete)", l):
+                        continue
+                    out.append(l)
+                tmp = "%s.tmp%d-%d" % (dst, os.getpid(), threading.get_ident())
+                with open(tmp, "w") as f:
+                    f.write("\n".join(out))
+                os.replace(tmp, dst)
     return d
 
 
@@ -944,6 +946,12 @@ def main():
     except BuildError as e:
         print("BUILD-ERROR")
         print(str(e)[-8000:])
+        return 2
+    except Exception:
+        # a defect of the driver itself is not a statement about the property: exit code 2, no VIOLATION line
+        import traceback
+        print("INTERNAL-ERROR (driver)")
+        traceback.print_exc()
         return 2
     print(__doc__)
     return 2
